@@ -206,3 +206,57 @@ func famStatus(g *genctx, v int) *scen {
 	}
 	return s
 }
+
+// S-multi-io: non-coroutine functions with two or three I/O arguments and
+// explicit returns in branches: every `return` writes back the derived
+// pointers of every I/O argument, so the results (and the emitted C) must not
+// depend on the order in which the generator visits them.
+func init() {
+	allFamilies = append(allFamilies, family{"S-multi-io", 3, famMultiIO})
+}
+
+func famMultiIO(g *genctx, v int) *scen {
+	m, f := g.n("mio"), g.n("mv")
+	var sig, body string
+	switch v {
+	case 0: // reader + writer, no result
+		sig = "src: base.io_reader, dst: base.io_writer, sel: base.u32"
+		body = fmt.Sprintf("    if args.src.length() < 4 {\n        this.%s ~mod+= 1\n        return nothing\n    }\n    this.%s = args.src.peek_u32le()\n    args.src.skip_u32_fast!(actual: 2, worst_case: 2)\n    if args.dst.length() < 2 {\n        this.%s ~mod+= 100\n        return nothing\n    }\n    args.dst.write_u8_fast!(a: (this.%s & 0xFF) as base.u8)\n    if args.sel == 1 {\n        args.dst.write_u8_fast!(a: 0x5A)\n        return nothing\n    }\n    args.src.skip_u32_fast!(actual: 1, worst_case: 1)", f, f, f, f)
+	case 1: // two readers and a writer, numeric result
+		sig = "src: base.io_reader, aux: base.io_reader, dst: base.io_writer, sel: base.u32"
+		body = fmt.Sprintf("    if (args.src.length() < 2) or (args.aux.length() < 1) {\n        return 7\n    }\n    this.%s = (args.src.peek_u16le_as_u32() ~mod* 3) ~mod+ args.aux.peek_u8_as_u32()\n    args.aux.skip_u32_fast!(actual: 1, worst_case: 1)\n    if args.sel == 2 {\n        return this.%s\n    }\n    args.src.skip_u32_fast!(actual: 2, worst_case: 2)\n    if args.dst.length() >= 1 {\n        args.dst.write_u8_fast!(a: (this.%s & 0xFF) as base.u8)\n        return 1\n    }\n    return 0", f, f, f)
+	case 2: // two writers
+		sig = "dst: base.io_writer, log: base.io_writer, sel: base.u32"
+		body = fmt.Sprintf("    if args.dst.length() < 1 {\n        return nothing\n    }\n    args.dst.write_u8_fast!(a: (args.sel & 0xFF) as base.u8)\n    if args.log.length() < 2 {\n        this.%s ~mod+= 1\n        return nothing\n    }\n    args.log.write_u16le_fast!(a: (args.sel & 0xFFFF) as base.u16)\n    if args.sel > 5 {\n        return nothing\n    }\n    this.%s ~mod+= 2", f, f)
+	}
+	ret := ""
+	if v == 1 {
+		ret = " base.u32"
+	}
+	s := &scen{features: []string{"multiple-io-arguments", "explicit-return", "derived-var-write-back"}}
+	s.fields = []string{f + " : base.u32"}
+	s.methods = []string{
+		fmt.Sprintf("pub func obj.%s!(%s)%s {\n%s\n}", m, sig, ret, body),
+		fmt.Sprintf("pub func obj.%s() base.u32 {\n    return this.%s\n}", g.n("getmv"), f),
+	}
+	s.getters = []string{g.n("getmv")}
+	s.drive = func(r *rand.Rand) []Call {
+		var out []Call
+		rd := func(n int) Arg { return Arg{Kind: "reader", Reader: &ReaderOp{Append: randBytes(r, n)}} }
+		wr := func(n int) Arg { return Arg{Kind: "writer", Writer: &WriterOp{Grow: n}} }
+		for i := 0; i < 14; i++ {
+			sel := iarg(uint64(r.Intn(8)))
+			switch v {
+			case 0:
+				out = append(out, Call{Method: m, Args: []Arg{rd(r.Intn(6)), wr(r.Intn(3)), sel}})
+			case 1:
+				// one shared source buffer for both reader arguments is not what the driver models: it has one source; the aux reader is the same buffer
+				return nil
+			case 2:
+				return nil
+			}
+		}
+		return out
+	}
+	return s
+}
